@@ -9,6 +9,7 @@ package kv
 import (
 	"context"
 	"encoding/json"
+	"os"
 	"strconv"
 	"testing"
 	"time"
@@ -18,6 +19,7 @@ import (
 	"github.com/gotid/god/internal/verifdrv"
 	"github.com/gotid/god/internal/verifdrv/c12raw"
 	"github.com/gotid/god/lib/logx"
+	"github.com/gotid/god/lib/prometheus"
 	"github.com/gotid/god/lib/store/cache"
 	"github.com/gotid/god/lib/store/redis"
 )
@@ -729,6 +731,11 @@ func verifKV(c verifCase) any {
 
 func TestVerifDriver(t *testing.T) {
 	logx.Disable()
+	if os.Getenv("VERIF_C12_METRICS") == "1" {
+		// this driver process runs with the Prometheus agent ENABLED: the wrapper's go-redis hook then really
+		// records durations and errors (label values are checked against the declared labels)
+		prometheus.StartAgent(prometheus.Config{Host: "127.0.0.1", Port: 0, Path: "/metrics"})
+	}
 	verifdrv.Run(t, func(raw json.RawMessage) any {
 		var c verifCase
 		if err := json.Unmarshal(raw, &c); err != nil {
